@@ -738,8 +738,27 @@ pub fn par_y(rng: &mut Rng, size: usize, out: &mut Vec<String>) {
         }
         let t = rng.range(1, 4);
         let q = rng.range(1, 3);
-        let cap = *rng.pick(&[3usize, 8, 16, 33, 64, 200, 4096]);
+        let mut cap = *rng.pick(&[3usize, 8, 16, 33, 64, 200, 4096]);
+        // a tenth of the cases: many records of one size that divides the buffer capacity (every fill ends exactly on a
+        // record boundary), input much longer than the queue of data sets
+        let aligned = !mutated && rng.chance(1, 10);
+        if aligned {
+            let k = rng.range(2, 6);
+            let n = rng.range(40, 200);
+            input.clear();
+            for i in 0..n {
+                if fmt == "fa" {
+                    input.extend_from_slice(format!(">r{:02}\nACGTACGTAC\n", i % 100).as_bytes());
+                } else {
+                    input.extend_from_slice(format!("@{:02}\nACGT\n+\nIIII\n", i % 100).as_bytes());
+                }
+            }
+            cap = 16 * k;
+        }
         let stop = if rng.chance(1, 4) { Some(rng.range(1, 6)) } else { None };
+        // a sixth of the cases: the byte source fails at one of its first read calls (any error kind)
+        // (the first or the second call: those are reached by sequential and by batch-wise reading alike)
+        let fault = if rng.chance(1, 6) { format!("@{}.{}", rng.range(1, 3), rng.below(crate::util::KINDS.len())) } else { String::new() };
         // a third of the cases go through the set-level API (`read_parallel` + `ReusableReader`)
         // a third of the cases go through the set-level API, half of those with a non-default growth policy
         let api = match rng.below(6) {
@@ -749,7 +768,7 @@ pub fn par_y(rng: &mut Rng, size: usize, out: &mut Vec<String>) {
         };
         out.push(format!(
             "Y {} {} {} {} {} {}",
-            api, t, q, cap, stop.map(|v| v.to_string()).unwrap_or("-".to_string()), hex_or_dash(&input)
+            api, t, q, cap, stop.map(|v| v.to_string()).unwrap_or("-".to_string()) + &fault, hex_or_dash(&input)
         ));
     }
 }
@@ -759,10 +778,47 @@ pub fn par_y(rng: &mut Rng, size: usize, out: &mut Vec<String>) {
 pub const CFG_GROUP: usize = 6;
 
 /// every input under six configurations (capacity x policy x chunking / interrupts)
+fn config_free_history(fmt: &str, rng: &mut Rng, input: &[u8]) -> Vec<Op> {
+    let len = rng.range(3, 10);
+    let raw = rand_history(fmt, rng, input, true, len);
+    let mut ops = vec![];
+    let mut after_single = false;
+    for op in raw {
+        match op {
+            Op::Set(j) => {
+                ops.push(Op::Exact(j, rng.range(1, 5)));
+                after_single = false;
+            }
+            Op::Exact(..) | Op::SeekSlot(_) | Op::SeekTo(..) => {
+                ops.push(op);
+                after_single = false;
+            }
+            Op::Next | Op::Owned | Op::OwnedJson => {
+                ops.push(op);
+                after_single = true;
+            }
+            Op::Pos | Op::Capture(_) => {
+                if after_single {
+                    ops.push(op);
+                }
+            }
+            Op::SetPolicy(_) => {}
+            other => ops.push(other),
+        }
+    }
+    for _ in 0..3 {
+        ops.push(Op::Next);
+    }
+    ops
+}
+
 pub fn config_lattice(fmt: &str, rng: &mut Rng, n_inputs: usize, out: &mut Vec<String>) {
     for _ in 0..n_inputs {
         let input = rand_input(fmt, rng, 30);
-        let ops = next_only_ops(fmt, &input);
+        // half of the groups: plain record-by-record reading; the other half: a history whose observations do not
+        // legitimately depend on the configuration (no plain set reads – their batch size may depend on the capacity –,
+        // positions only asked right after a single read, no policy change)
+        let ops = if rng.chance(1, 2) { next_only_ops(fmt, &input) } else { config_free_history(fmt, rng, &input) };
         let len = input.len().max(3);
         let mut intr_script = vec![];
         for _ in 0..rng.range(2, 12) {
@@ -998,7 +1054,8 @@ pub fn alloc_cases(fmt: &str, rng: &mut Rng, n: usize, out: &mut Vec<String>) {
             f.extend_from_slice(if crlf { b"\r\n" } else { b"\n" });
         }
         let rec_size = f.len() / nrec;
-        let cap = *rng.pick(&[rec_size * 3 + 7, rec_size * 5 + 1, 1024, 4096, 65536]);
+        // (exact multiples of the record size: every fill then ends on a record boundary)
+        let cap = *rng.pick(&[rec_size * 3 + 7, rec_size * 5 + 1, rec_size * 3, rec_size * 4, 1024, 4096, 65536]);
         let mut ops = vec![];
         match rng.below(6) {
             0 => {
